@@ -94,8 +94,6 @@ EIP155Sender(p, a, sg) ==
       ELSE IF DeriveSignParam(sg) # p THEN "err"             \* ErrInvalidSignParam
       ELSE RecoverPlain(a, p, sg, TRUE)
 
-Expect == [p \in Params |-> EIP155Sender(p, alt, sig)]
-
 (* ---- actions ------------------------------------------------------------ *)
 Init == /\ alt = {} /\ sig = Signed("k1", {}, "p0") /\ vp = "p0"
         /\ cache = NoCache /\ pool = NoPool /\ steps = 0 /\ sigmuts = 0
